@@ -33,14 +33,14 @@ RULE = ('(i) pty transport: plans [W,X] [W,W,X] [W,C,X] [W,W,C,X] [C,X] [X] (W =
         '{read_nonblocking(size, 50 ms) retried on TIMEOUT, expect(EOF)} x sizes {1, 7, 2000, 65536} x select/poll. (ii) bulk: '
         '0 B..512 KB written in random splits followed by immediate exit/close on pty, fd, socket and popen transports, '
         'maxread in {1, 64, 2000, 10000, 65536, 1 MB} (incl. fixed 300 KB runs with maxread between one kernel read and the whole stream). (iii) fd and socket transports in-process with peer actions placed at the '
-        'reader\'s select/read/recv sites. (iv) PopenSpawn under schedule perturbation (switch interval 10 us, seeded '
+        'reader\'s select/read/recv sites, in bytes mode and in text mode with multi-byte characters and read sizes 1..7. (iv) PopenSpawn under schedule perturbation (switch interval 10 us, seeded '
         'yields in the reader thread). Oracle: concatenated results == blocks the peer was acknowledged to have written '
         '(prefix before EOF, equal at EOF), every result <= size, socket timeout unchanged after every call. non-trivial '
         '= placement with an action at a site > 0, or bulk >= 4 KB; distinct by (plan, placement, reader, size, poll)')
 ASSUMPTIONS = ['kernel pty/pipe/socket ordering is trusted; the harness waits until written data is readable on the master before the '
                'reader continues, so "between system call k and k+1" is exact',
                'TIMEOUT is never treated as EOF by the reader loops']
-REQUIRED = ['placements', 'traces_recorded', 'bulk_runs', 'inproc_placements', 'popen_runs', 'results_checked_le_size',
+REQUIRED = ['placements', 'text_mode_placements', 'traces_recorded', 'bulk_runs', 'inproc_placements', 'popen_runs', 'results_checked_le_size',
             'socket_timeout_checks', 'eof_checks']
 
 PLANS = [['W', 'X'], ['W', 'W', 'X'], ['W', 'C', 'X'], ['W', 'W', 'C', 'X'], ['C', 'X'], ['X']]
@@ -247,12 +247,13 @@ def inproc_placement(case, acc):
     """fdspawn on a pipe / SocketSpawn on a socketpair; peer actions W.., close
     placed at the reader's select / read / recv sites."""
     tr, plan, placement, size, poll = case['tr'], case['plan'], case['placement'], case['size'], case['poll']
+    enc = case.get('enc')
     written = []
     saved = []
     if tr == 'fd':
         r, w = os.pipe()
         wfd = [w]
-        child = pexpect.fdpexpect.fdspawn(r, timeout=5, maxread=size, use_poll=poll)
+        child = pexpect.fdpexpect.fdspawn(r, timeout=5, maxread=size, use_poll=poll, encoding=enc)
         sock = None
     else:
         a, b = socket.socketpair()
@@ -265,6 +266,9 @@ def inproc_placement(case, acc):
         act = plan[i]
         if act == 'W':
             data = block(i, 3)
+            if enc:
+                # text mode: multi-byte characters, so that a small read can hold only part of a character
+                data = ('%d\xe9\u20ac\u65e5;' % i).encode(enc) * 2
             written.append(data)
             if tr == 'fd':
                 os.write(wfd[0], data)
@@ -311,8 +315,8 @@ def inproc_placement(case, acc):
 
                 def __getattr__(self, nm):
                     return getattr(self._s, nm)
-            child = SocketSpawn(SockProxy(sock), timeout=5, maxread=size)
-        got = b''
+            child = SocketSpawn(SockProxy(sock), timeout=5, maxread=size, encoding=enc)
+        got = '' if enc else b''
         eof = False
         for _ in range(3000):
             try:
@@ -345,8 +349,11 @@ def inproc_placement(case, acc):
                 acc.violation('socket-timeout-not-restored', 'after EOF the socket timeout is %r' % sock.gettimeout(), case)
                 return
         want = b''.join(written)
+        if enc:
+            want = want.decode(enc)
+            acc.count('text_mode_placements')
         acc.count('eof_checks')
-        desc = '%s plan %s at %r size %d: ' % (tr, ''.join(plan), placement, size)
+        desc = '%s%s plan %s at %r size %d: ' % (tr, '/' + enc if enc else '', ''.join(plan), placement, size)
         if eof and wfd[0] is not None:
             acc.violation('eof-while-peer-alive:' + tr, desc + 'EOF reported although the peer had not closed', case)
             return
@@ -593,6 +600,9 @@ def plan(tier, seed):
                 for size in ((7,) if tier == 'quick' else (1, 7, 2000)):
                     cases.append({'kind': 'inproc', 'tr': tr, 'plan': pl, 'placement': list(p), 'size': size,
                                   'poll': bool(sum(p) % 2)})
+                    if sum(p) % 3 == 0:
+                        cases.append({'kind': 'inproc', 'tr': tr, 'plan': pl, 'placement': list(p), 'enc': 'utf-8',
+                                      'size': [1, 2, 3, 7][sum(p) % 4], 'poll': bool(sum(p) % 2)})
     # deterministic bulk cases: sizes between one kernel read (~4 KB on a pty) and the whole stream, so that one
     # read_nonblocking has to assemble its result from several pieces
     for tr in ('pty', 'popen', 'fd', 'socket'):
